@@ -75,21 +75,35 @@ def run(ctx):
                         + "].\nDefinition result := Eval vm_compute in vreport cases.\nPrint result.\n")
     res = common.eval_cases_files([vf])[vf]
     bad = res.get("bad", [])
-    nt = len({json.dumps({k: v for k, v in c.items() if k not in ("obs",)}, sort_keys=True) for c in cases
-              if (c["kind"] == "flag") or (c["n"] >= 2 and (c["a"]["batched"] or c["b"]["batched"]))})
-    return {"cases": cases, "bad": bad, "worker_errs": worker_errs, "coq_errs": [res["error"]] if "error" in res else [],
+    # the Vmap combinator and repeat: vmap-heavy GFI programs (Vmap of dist / fn / repeat / Scan, nested in
+    # @gen functions) through simulate / assess / generate / update / regenerate, judged by Model/Corr.v
+    import p_gfi
+    gcases, gbad, gerrs, gcoq = p_gfi.extra_stream(ctx, "vgfi", "sim,assess,gen,hist", 60 if ctx.tier == "quick" else 600,
+                                                   ["depth=2", "collide=0", "allow=dist,fn,vmap,vmap,scan", "ops=upd,regen,back", "maxops=3", "jit=0.2"])
+    for gc in gcases:
+        gc["gkind"], gc["kind"] = gc["kind"], "vmap-gfi"
+    off = len(cases)
+    cases = cases + gcases
+    bad = bad + [(off + i, a, s_, x) for (i, a, s_, x) in gbad]
+    worker_errs = worker_errs + gerrs
+    nt = len({json.dumps([c["g"], c["args"], c.get("x"), c.get("ops")], sort_keys=True) for c in gcases if p_gfi.nsites(c["g"]) >= 2}) + len({json.dumps({k: v for k, v in c.items() if k not in ("obs",)}, sort_keys=True) for c in cases
+              if (c["kind"] == "flag") or (c["kind"] == "sample" and c["n"] >= 2 and (c["a"]["batched"] or c["b"]["batched"]))})
+    return {"cases": cases, "bad": bad, "worker_errs": worker_errs, "coq_errs": ([res["error"]] if "error" in res else []) + gcoq,
             "coverage": {"evaluations": len(cases), "distinct_nontrivial": nt,
                          "rule": "sample: a two-parameter parameter-echo sampler under seed(modular_vmap(...)) with 1-3 lanes, per-lane output rank 0-2, size-1 broadcast dims, "
                                  "batch axes at any position of either parameter or absent, axis_size given or inferred, site sample_shape empty or not, and (15%) per-lane ranks "
                                  "that differ; the parameter elements behind every output element are decoded and compared in Coq with the model of the batching rule and with the "
                                  "lane-wise specification.  flag: deterministic functions (affine, reductions, matvec, indexing, scan, cond, pytree outputs) with in_axes in "
                                  "{0,1,-1,None}, density sites, echo sites inside nested modular_vmap / scan / cond, compared with jax.vmap of a reference; real normal sites: lanes distinct. "
-                                 "non-trivial = distinct flag case, or sample case with >=2 lanes and a batched parameter",
+                                 "vmap-gfi: random GFI programs built from Vmap (of a distribution, an @gen function, a repeat, a Scan), Scan and @gen functions, run through simulate / assess / "
+                                 "generate / update / regenerate on the implementation and judged by the GFI model (Model/Corr.v): scalar score = sum of per-lane sums, stacked choices and return values.  "
+                                 "non-trivial = distinct flag case, sample case with >=2 lanes and a batched parameter, or vmap-gfi program with >=2 sites",
                          "histogram": {"kinds": Counter(c["kind"] for c in cases),
+                                       "vmap_gfi_ops": Counter(c["gkind"] for c in gcases),
                                        "flag_kinds": Counter(c.get("what", "").split(":")[0] for c in cases if c["kind"] == "flag"),
                                        "rank_mismatch": sum(1 for c in cases if c["kind"] == "sample" and real_mismatch(c)),
                                        "errors": Counter(c.get("err", "")[:60] for c in cases if "err" in c)},
-                         "samples": [{k: v for k, v in c.items() if k != "obs"} for c in cases[:3]]}}
+                         "samples": [{k: v for k, v in c.items() if k not in ("obs", "feat")} for c in cases[:3]]}}
 
 
 def signature(case, agree, strict, relaxed):
